@@ -128,8 +128,9 @@ class View:
             bi += 1
         self.stack.pop()
         if not changed:
-            self.memo[key] = j
-            return j
+            out = scalarise_tuples(j)        # tuple temporaries are split in every body of this view
+            self.memo[key] = out
+            return out
         out["locals"] = locals_
         out["blocks"] = blocks
         out = scalarise_tuples(out)
@@ -327,6 +328,17 @@ def build_view(prog, known):
                 if ck and ck in p2.bodies and ck not in seen:
                     p2.closures_of.setdefault(k, []).append(ck)
                     seen.add(ck)
+    # name-based owner of a closure -> the function that now contains its creation site (for helpers that were removed)
+    p2.closure_owner = {}
+    for k, cs in p2.closures_of.items():
+        for ck in cs:
+            base = re.sub(r"(::\{closure#\d+\})+$", "", ck)
+            if base in removed and k in p2.bodies and not p2.bodies[k].is_closure:
+                p2.closure_owner.setdefault(ck, k)
+    for ck in list(p2.closure_owner):     # nested closures follow their parents
+        for k2 in p2.bodies:
+            if k2.startswith(ck + "::{closure#"):
+                p2.closure_owner.setdefault(k2, p2.closure_owner[ck])
     p2.inlined = sorted(v.inlined_callees)
     p2.removed = sorted(removed)
     return p2
